@@ -2232,6 +2232,20 @@ class SQLModel:
             if subsql_add_query_name
             else None,
         )
+        if is_union:
+            # an ORDER BY / LIMIT suffix belongs to its member, not to the whole union: nest such a member
+            def _nest_member(sub, lines):
+                suffix = getattr(sub.near_sql, "suffix", None)
+                if (suffix is None) or (len(suffix) < 1):
+                    return lines
+                return (
+                    ["SELECT", sql_format_options.sql_indent + "*", "FROM", "("]
+                    + [sql_format_options.sql_indent + si for si in lines]
+                    + [") " + sub.near_sql.quoted_query_name]
+                )
+
+            substr_1 = _nest_member(near_sql.sub_sql1, substr_1)
+            substr_2 = _nest_member(near_sql.sub_sql2, substr_2)
         sql = (
             [sql_start]
             + self._indent_and_sep_terms(
